@@ -615,6 +615,8 @@ def getitem_model(M, interp, obj, key, node):
             raise AbsRaise(ExcVal('TypeError', ('unhashable key',)), node)
     if obj is None:
         raise AbsRaise(ExcVal('TypeError', ("'NoneType' object is not subscriptable",)), node)
+    if isinstance(obj, ExtRef) and obj.path.split('.')[0] in ('typing', 'collections', 'builtins'):
+        return obj          # generic alias in an annotation: Union[...], List[...]
     if isinstance(obj, Instance):
         try:
             f = obj.cls.lookup('__getitem__')
